@@ -19,9 +19,11 @@ Slack == 1               \* tolerance (ticks) for bounded-liveness clauses
 
 MsgEvents == {"cb_b", "cb_e", "pre_b", "pre_e", "onerr_b", "onerr_e", "post_b",
               "post_e", "postsave_b", "postsave_e", "ack", "ack_e", "dep_open",
-              "dep_opened", "dep_close", "start", "end", "save_b", "save_e"}
+              "dep_opened", "dep_close", "dep_closed", "start", "end", "save_b", "save_e"}
 ErrOutcomes == {"exc", "base", "nores", "cancel", "depfail", "cerr", "falsy", "sysexit"}
 Teardown == {"gen", "agen", "cm", "acm"}
+(* a teardown that awaits: its finalisation begins at "dep_close" and is complete only at "dep_closed" *)
+CloseSusp(d) == d.csusp /\ d.style \in {"agen", "acm"}
 
 Max2(a, b) == IF a >= b THEN a ELSE b
 Min2(a, b) == IF a <= b THEN a ELSE b
@@ -158,6 +160,8 @@ C10GenOK(c, m, ev) ==
 OpenedSeq(c, L) == LET P == Proj(L, {"dep_open"}) IN
                    SelectSeq([i \in 1..Len(P) |-> P[i].x], LAMBDA d : DepRec(c, d).style \in Teardown /\ ~DepRec(c, d).fail)
 ClosedSeq(L) == LET P == Proj(L, {"dep_close"}) IN [i \in 1..Len(P) |-> P[i].x]
+(* dependencies whose finalisation is complete *)
+FinishedDeps(c, L) == {d \in RangeS(ClosedSeq(L)) : ~CloseSusp(DepRec(c, d)) \/ HasX(L, "dep_closed", d)}
 
 PerMsg(c, o, m, L, ev) ==
   LET valid == IsValid(c, m)
@@ -254,16 +258,20 @@ PerMsg(c, o, m, L, ev) ==
   (* ---------------- C12 ---------------- *)
   \cup (IF \A d \in RangeS(closed) : CntX(L, "dep_close", d) = 1 /\ HasX(L, "dep_open", d)
         THEN {} ELSE {"C12_Once"})
-  \cup (IF ev.e = "cb_e" /\ RangeS(opened) # RangeS(closed) THEN {"C12_Once"} ELSE {})
+  \cup (IF ev.e = "cb_e" /\ RangeS(opened) # FinishedDeps(c, L) THEN {"C12_Once"} ELSE {})
+  \cup (IF ev.e = "dep_closed" /\ ~(CntX(L, "dep_closed", ev.x) = 1 /\ CntX(L, "dep_close", ev.x) = 1 /\ CloseSusp(DepRec(c, ev.x)))
+        THEN {"C12_Once"} ELSE {})
   \cup (IF ev.e = "dep_close" /\ ~doneExec
            /\ ~(\E d \in RangeS([i \in 1..Len(c.deps) |-> c.deps[i].id]) : DepRec(c, d).fail /\ HasX(L, "dep_open", d))
         THEN {"C12_AfterTask"} ELSE {})
-  \cup (IF (ev.e = "save_b" \/ (ev.e = "ack" /\ at # "when_received")) /\ RangeS(opened) # RangeS(closed)
+  \cup (IF (ev.e = "save_b" \/ (ev.e = "ack" /\ at # "when_received")) /\ RangeS(opened) # FinishedDeps(c, L)
         THEN {"C12_BeforeVisible"} ELSE {})
   \cup (IF ev.e = "dep_close" /\ ~IsPrefixOf(closed, RevSeq(opened))
         THEN (IF \E d \in RangeS(opened) : DepRec(c, d).grp > 0
               THEN {"KF_C12_Reverse_uncached"} ELSE {"C12_Reverse"})
         ELSE {})
+  (* one finalisation at a time: the previous dependency's teardown is complete before the next one begins *)
+  \cup (IF ev.e = "dep_close" /\ (RangeS(closed) \ {ev.x}) # (FinishedDeps(c, L) \ {ev.x}) THEN {"C12_Reverse"} ELSE {})
   \cup (IF ev.e = "dep_close"
            /\ (ev.s = "exc") # (c.propagate /\ (oc \in ErrOutcomes \/ oc = "none"))
         THEN {"C12_Propagate"} ELSE {})
